@@ -654,6 +654,8 @@ class Interp:
             return lambda: SymScalar(a.term) if a.ndim == 0 else (_ for _ in ()).throw(AnalysisAbort("ndarray.item on n-d"))
         if name in ("max", "min"):
             return lambda axis=None: NP.reduce_all(a, name) if axis is None else (_ for _ in ()).throw(AnalysisAbort("axis max"))
+        if name in ("any", "all"):
+            return lambda axis=None, **k: NP.reduce_all(a, name)
         if name == "squeeze":
             def sq(axis=None):
                 if any(x == NP.ONE for x in a.axes):
@@ -687,6 +689,42 @@ class Interp:
         if m.name == "sys":
             if name == "exc_info":
                 return lambda: (None, None, None)
+        if m.name == "operator":
+            ops = {"add": ast.Add, "sub": ast.Sub, "mul": ast.Mult, "truediv": ast.Div, "floordiv": ast.FloorDiv, "mod": ast.Mod, "pow": ast.Pow,
+                   "and_": ast.BitAnd, "or_": ast.BitOr, "xor": ast.BitXor, "iadd": ast.Add, "isub": ast.Sub, "imul": ast.Mult}
+            cmps = {"eq": ast.Eq, "ne": ast.NotEq, "lt": ast.Lt, "le": ast.LtE, "gt": ast.Gt, "ge": ast.GtE, "is_": ast.Is, "is_not": ast.IsNot, "contains": None}
+            if name in ops:
+                return lambda a, b, _o=ops[name]: self.binop(_o(), a, b, node)
+            if name in cmps and cmps[name] is not None:
+                return lambda a, b, _o=cmps[name]: self.compare(_o(), a, b, node or ast.Constant(value=0, lineno=0))
+            if name == "contains":
+                return lambda a, b: self.contains(a, b, node)
+            if name == "neg":
+                return lambda a: self.e_UnaryOp(ast.UnaryOp(op=ast.USub(), operand=ast.Constant(value=0)), None) if False else (self.call_method(a, "__neg__") if isinstance(a, Obj) else (NP.elementwise("neg", a) if isinstance(a, (AArr, SymScalar)) else -a))
+            if name == "not_":
+                return lambda a: not self.truth(a)
+            if name == "truth":
+                return lambda a: self.truth(a)
+            if name == "attrgetter":
+                return lambda *names: (lambda o: self.get_attr(o, names[0]) if len(names) == 1 else tuple(self.get_attr(o, n_) for n_ in names))
+            if name == "itemgetter":
+                return lambda *keys: (lambda o: self.get_item(o, keys[0], node) if len(keys) == 1 else tuple(self.get_item(o, k_, node) for k_ in keys))
+            if name == "methodcaller":
+                return lambda mname, *a, **k: (lambda o: self.call(self.get_attr(o, mname), list(a), k))
+            raise AnalysisAbort(f"operator.{name} is not modelled")
+        if m.name == "functools" and name == "reduce":
+            def reduce_(f, it, *init):
+                vals = self.iterate(it)
+                if init:
+                    acc = init[0]
+                elif vals:
+                    acc, vals = vals[0], vals[1:]
+                else:
+                    raise PyRaise("TypeError", node, "reduce() of empty iterable with no initial value")
+                for x in vals:
+                    acc = self.call(f, [acc, x], {})
+                return acc
+            return reduce_
         if m.name in ("math", "operator", "functools", "itertools", "string", "textwrap") and not (m.name == "itertools" and name == "product"):
             import math as _m, operator as _o, functools as _f, itertools as _i, string as _s, textwrap as _t
             host = getattr({"math": _m, "operator": _o, "functools": _f, "itertools": _i, "string": _s, "textwrap": _t}[m.name], name, None)
@@ -822,6 +860,14 @@ class Interp:
             return lambda a, axis=None, **kw: (NP.reduce_all(a) if axis is None else I._reduce_axes(a, axis))
         if name in ("max", "min", "amax", "amin", "nanmax", "nanmin"):
             return lambda a, axis=None, **kw: NP.reduce_all(a, name) if axis is None else (_ for _ in ()).throw(AnalysisAbort("np.max with axis"))
+        if name == "count_nonzero":
+            def cnz(a, **k):
+                if isinstance(a, NP.IdxArr):
+                    return sum(1 for x in a.positions if x)
+                if isinstance(a, (list, tuple)) and all(isinstance(x, (bool, int)) and not isinstance(x, TInt) for x in a):
+                    return sum(1 for x in a if x)
+                raise AnalysisAbort("np.count_nonzero of array data")
+            return cnz
         if name in ("any", "all"):
             def anyall(a, axis=None, _n=name):
                 if isinstance(a, (list, tuple)) and all(isinstance(x, (bool, int)) for x in a):
@@ -1795,7 +1841,7 @@ class Interp:
         for op, rn in zip(n.ops, n.comparators):
             r = self.eval(rn, fr)
             v = self.compare(op, l, r, n)
-            if isinstance(v, (AArr, SymScalar)):
+            if isinstance(v, (AArr, SymScalar, NP.IdxArr)):
                 if len(n.ops) > 1:
                     raise AnalysisAbort("chained comparison on array data")
                 return v
@@ -1805,6 +1851,16 @@ class Interp:
         return True
 
     def compare(self, op, l, r, n):
+        if isinstance(l, NP.IdxArr) or isinstance(r, NP.IdxArr):
+            import operator as _op
+            f = {ast.Eq: _op.eq, ast.NotEq: _op.ne, ast.Gt: _op.gt, ast.GtE: _op.ge, ast.Lt: _op.lt, ast.LtE: _op.le}.get(type(op))
+            if f is None:
+                raise AnalysisAbort("operator on an integer vector")
+            lv = l.positions if isinstance(l, NP.IdxArr) else [l] * len(r.positions)
+            rv = r.positions if isinstance(r, NP.IdxArr) else [r] * len(l.positions)
+            if any(isinstance(x, TInt) for x in list(lv) + list(rv)):
+                self.tainted("comparison on a vector of lengths")
+            return NP.IdxArr([bool(f(int(a), int(b))) for a, b in zip(lv, rv)])
         if isinstance(op, ast.In):
             return self.contains(r, l, n)
         if isinstance(op, ast.NotIn):
@@ -1835,6 +1891,8 @@ class Interp:
             if isinstance(op, ast.LtE):
                 return l <= r
         except TypeError as e:
+            if any(type(x).__module__.startswith("fdv") for x in (l, r)):
+                raise AnalysisAbort(f"comparison of modelled objects is not modelled: {e}")
             raise PyRaise("TypeError", n, str(e))
         raise AnalysisAbort("comparison operator")
 
